@@ -13,12 +13,19 @@ import (
 	"github.com/bfenetworks/bfe/bfe_basic"
 	"github.com/bfenetworks/bfe/bfe_basic/condition"
 	"github.com/bfenetworks/bfe/bfe_http"
+	"github.com/bfenetworks/bfe/bfe_tls"
 )
 
-const nAtoms = 12
+const nAtoms = 14 // 0..11 request primitives, 12 default_t(), 13 ses_tls_client_auth()
 
 // atom n is rendered as one of four primitive families; its truth value is bit n of env
 func atomText(n int, ws uint64) string {
+	if n == 12 {
+		return "default_t()"
+	}
+	if n == 13 {
+		return "ses_tls_client_auth()"
+	}
 	switch n % 4 {
 	case 0:
 		return fmt.Sprintf(`req_header_key_in("H%d")`, n)
@@ -34,11 +41,20 @@ func atomText(n int, ws uint64) string {
 	}
 }
 
-func mkReq(env uint64) *bfe_basic.Request {
+// kind 0: complete request; 1: session-only (HttpRequest nil, the shape mod_key_log / TLS-phase callbacks build);
+// 2: Session nil; 3: nil request
+func mkReq(env uint64, kind int) *bfe_basic.Request {
+	if kind == 3 {
+		return nil
+	}
+	ses := &bfe_basic.Session{IsSecure: true, TlsState: &bfe_tls.ConnectionState{ClientAuth: env>>13&1 == 1}}
+	if kind == 1 {
+		return &bfe_basic.Request{Session: ses}
+	}
 	hr := &bfe_http.Request{Method: "GET", Header: bfe_http.Header{}, Proto: "HTTP/1.1", Host: "example.org"}
 	var q, ck []string
 	for n := 0; n < 64; n++ {
-		if env>>uint(n)&1 == 0 {
+		if env>>uint(n)&1 == 0 || n == 12 || n == 13 {
 			continue
 		}
 		switch n % 4 {
@@ -57,7 +73,10 @@ func mkReq(env uint64) *bfe_basic.Request {
 	}
 	hr.URL = &url.URL{Path: "/p", RawQuery: strings.Join(q, "&")}
 	hr.RequestURI = hr.URL.RequestURI()
-	req := bfe_basic.NewRequest(hr, nil, nil, &bfe_basic.Session{}, nil)
+	req := bfe_basic.NewRequest(hr, nil, nil, ses, nil)
+	if kind == 2 {
+		req.Session = nil
+	}
 	return req
 }
 
@@ -101,11 +120,15 @@ func impl(in hv.Val) hv.Val {
 	toks := hv.AsList(l[0])
 	env := uint64(hv.AsInt(l[1]))
 	ws := uint64(hv.AsInt(l[2]))
+	kind := 0
+	if len(l) > 3 {
+		kind = int(hv.AsInt(l[3]))
+	}
 	c, err := condition.Build(render(toks, ws))
 	if err != nil {
 		return hv.Err(1)
 	}
-	return hv.Bool(c.Match(mkReq(env)))
+	return hv.Bool(c.Match(mkReq(env, kind)))
 }
 
 // ---- generators
@@ -173,8 +196,19 @@ func pr(r *hv.Rng, e *node, mode, extra int, out *[]int) {
 	}
 }
 
+// the request shape is derived from the case's random words: ~70% complete, 15% session-only, 10% no session, 5% nil
 func mk(toks []int, env uint64, ws uint64) hv.Val {
-	return hv.L{hv.LI(toks), hv.U(env), hv.U(ws)}
+	k := (env*0x9e3779b97f4a7c15 + ws*0xd1342543de82ef95 + uint64(len(toks))*0x2545f4914f6cdd1d) >> 40 % 20
+	kind := 0
+	switch {
+	case k >= 19:
+		kind = 3
+	case k >= 17:
+		kind = 2
+	case k >= 14:
+		kind = 1
+	}
+	return hv.L{hv.LI(toks), hv.U(env), hv.U(ws), hv.I(kind)}
 }
 
 func gen(r *hv.Rng, i int, tier string) (string, hv.Val) {
@@ -188,6 +222,26 @@ func gen(r *hv.Rng, i int, tier string) (string, hv.Val) {
 		maxd = 12
 	}
 	var toks []int
+	if r.Chance(1, 10) { // incomplete request objects: small expressions with negations over session-level atoms
+		e := genTree(r, r.Range(1, 3))
+		var sw func(x *node)
+		sw = func(x *node) {
+			if x == nil {
+				return
+			}
+			if x.op == 0 && r.Chance(1, 2) {
+				x.n = 12 + r.Intn(2)
+			}
+			sw(x.a)
+			sw(x.b)
+		}
+		sw(e)
+		if r.Chance(1, 2) {
+			e = &node{op: 1, a: e}
+		}
+		pr(r, e, 0, r.Intn(2), &toks)
+		return "shape", hv.L{hv.LI(toks), hv.U(env), hv.U(ws), hv.I(r.Range(1, 3))}
+	}
 	switch k := r.Intn(20); {
 	case k < 7: // tree, minimal parentheses + some redundant ones
 		e := genTree(r, r.Range(1, maxd))
